@@ -217,14 +217,18 @@ package core
 // The in-memory part (f.inner, f.next) is the subject of known finding F5a, not of this contract.
 //@ extern func sync.(*RWMutex).Lock
 //@ extern func sync.(*RWMutex).Unlock
+// What the cursor was once the filter was initialised (ghost record).
+//@ ghost var initNext uint64
 //@ func (*RunningEventFilter).ensureInit
 //@   trusted
 //@   modifies f.inner, f.next
+//@   sets initNext = f.next
 //@   ensures result == nil ==> f.inner != nil
 //@ func (*AggregatedBloomFilter).Insert
 //@   trusted
 //@ func (*AggregatedBloomFilter).clear
 //@   trusted
+//@   logged as clearBlock
 //@ func NewAggregatedFilter
 //@   trusted
 //@ func WriteAggregatedBloomFilter
@@ -257,18 +261,22 @@ package core
 //@   nosafe
 //@   requires f != nil
 //@   modifies *
-//@   assigns calls_DeleteAggregatedBloomFilter, arg_DeleteAggregatedBloomFilter_w, arg_DeleteAggregatedBloomFilter_fromBlock, arg_DeleteAggregatedBloomFilter_toBlock, calls_DeleteSnapshot, arg_DeleteSnapshot_w
+//@   assigns calls_DeleteAggregatedBloomFilter, arg_DeleteAggregatedBloomFilter_w, arg_DeleteAggregatedBloomFilter_fromBlock, arg_DeleteAggregatedBloomFilter_toBlock, calls_DeleteSnapshot, arg_DeleteSnapshot_w, initNext, calls_clearBlock, arg_clearBlock_blockNumber
 //@   callsite DeleteAggregatedBloomFilter@*: through_the_writer: $0 == writer
 //@   callsite DeleteRunningEventFilter@*: through_the_writer: $0 == writer
 //@   ensures stale_snapshot_dropped: result == nil ==> calls_DeleteSnapshot == old(calls_DeleteSnapshot) + 1
 //@   ensures at_most_one_window: calls_DeleteAggregatedBloomFilter == old(calls_DeleteAggregatedBloomFilter) || calls_DeleteAggregatedBloomFilter == old(calls_DeleteAggregatedBloomFilter) + 1
 //@   ensures nothing_written: calls_WriteAggregatedBloomFilter == old(calls_WriteAggregatedBloomFilter)
+// The cursor steps back only once the fallible storage steps are behind: a revert that fails on
+// one of them (and is retried) must not have moved it.
+//@   ensures failed_storage_step_leaves_the_cursor: result != nil && calls_clearBlock == old(calls_clearBlock) ==> f.next == initNext
 // At start-up the stored snapshot is resumed only if it is not ahead of the chain: a snapshot that
 // names a next block beyond head+1 was written before blocks were reverted and is rebuilt from the
 // headers, never trimmed back (its bits below the head may describe replaced blocks).
 //@ func GetChainHeight
 //@   trusted
 //@   ownpackage
+//@   ensures a_block_height: result1 == nil ==> result0 < 1<<62
 //@ func GetRunningEventFilter
 //@   trusted
 //@   ownpackage
